@@ -97,3 +97,111 @@ Definition headers_within (f : fmt) (m : mem) : bool :=
   (64 <=? h_soh f m) &&
   (e_lfanew m + f_nt_size f + N.min (h_nrva f m) 16 * 8 <=? h_soh f m) &&
   (sec_table_off f m + h_nsec f m * 40 <=? h_soh f m).
+
+(* ====================================================================================================
+   Third layer (second deepening round): the resource tree walkers, the debug entry payloads, the export
+   lookups that swallow read errors, the export iterators, unwind_info / function_bytes. *)
+
+(* ---- resources: two resource sections are THE SAME for every parser of Model/Resources.v: same length, same
+        directory RVA, same bytes below the length, addresses congruent modulo 4 (the parsers test alignments 2
+        and 4 of address + offset only).  Nothing is said about rs_get at or beyond rs_len. ---- *)
+Definition rsec_same (s s' : Resources.rsec) : Prop :=
+  Resources.rs_len s' = Resources.rs_len s /\ Resources.rs_va s' = Resources.rs_va s /\
+  Resources.rs_addr s' mod 4 = Resources.rs_addr s mod 4 /\
+  forall i, i < Resources.rs_len s -> Resources.rs_get s' i = Resources.rs_get s i.
+
+(* every query of the resources API: offsets are relative to the section, so the results are literally equal *)
+Definition res_queries_equal (s s' : Resources.rsec) : Prop :=
+  (* Resources::root, the traversal (every entry: name, kind, directory / data entry, DataEntry::bytes, size,
+     code page), fsck, the number of lines of the tree printer *)
+  Resources.root s' = Resources.root s /\
+  (forall d r lvl b, Resources.root s = Ok r -> Resources.walk d s' r lvl b = Resources.walk d s r lvl b) /\
+  Resources.fsck s' = Resources.fsck s /\
+  Resources.display_lines s' = Resources.display_lines s /\
+  (* the find API *)
+  (forall lo a b, Resources.find_resources lo s' a b = Resources.find_resources lo s a b) /\
+  (forall lo a b, Resources.find_resource lo s' a b = Resources.find_resource lo s a b) /\
+  (forall lo a b c, Resources.find_resource_ex lo s' a b c = Resources.find_resource_ex lo s a b c) /\
+  (forall lo rooted parts, Resources.find_path lo s' rooted parts = Resources.find_path lo s rooted parts) /\
+  Resources.manifest s' = Resources.manifest s /\
+  Resources.version_info s' = Resources.version_info s /\
+  (* group resources: the listing, the image lookup and the .ico/.cur writer of every listed group *)
+  (forall ty, Resources.group_list s' ty = Resources.group_list s ty) /\
+  (forall rg g, r_off rg + r_len rg <= Resources.rs_len s -> Resources.group_new s rg = Ok g ->
+     Resources.group_new s' rg = Ok g /\ Resources.g_type s' g = Resources.g_type s g /\
+     Resources.g_entries s' g = Resources.g_entries s g /\
+     (forall id, Resources.g_image s' g id = Resources.g_image s g id) /\
+     Resources.group_write s' g = Resources.group_write s g) /\
+  (* the bytes of every region inside the section (data entry bytes, version info, manifest, images) *)
+  (forall o n, o + n <= Resources.rs_len s -> Resources.sec_bytes s' o n = Resources.sec_bytes s o n).
+
+(* the section that serves [rva] is stored at a file offset congruent to its VirtualAddress modulo [al]
+   (true of every linker output: both are multiples of FileAlignment >= 512; pelite does not check it) *)
+Definition prd_va_congruent (al : N) (secs : list section) (rva : N) : bool :=
+  match first_v secs rva with
+  | Some s => s_prd s mod al =? s_va s mod al
+  | None => true
+  end.
+
+(* ---- debug entry payloads (debug.rs:140 Dir::data): a file addresses the payload by PointerToRawData, a
+        mapped image by AddressOfRawData.  The two are the same bytes when the entry is CONSISTENT: the file
+        pointer is the file offset of the RVA and the payload lies in bytes that are stored and mapped (inside the
+        headers, or inside the agreeing part of its section: min(VS,SRD), the whole raw data when the raw tail is
+        zero padding).  Decidable. ---- *)
+Definition debug_entry_consistent (F : N -> N) (soh : N) (secs : list section) (d : Dirs.ddir) : bool :=
+  match rva_to_file_offset soh secs (Dirs.dd_addr d) with
+  | Ok p => (p =? Dirs.dd_ptr d) &&
+            (if Dirs.dd_addr d <? soh then Dirs.dd_addr d + Dirs.dd_size d <=? soh
+             else Dirs.dd_size d <=? agree_len F secs (Dirs.dd_addr d))
+  | _ => false
+  end.
+
+Definition res_map {A B} (f : A -> B) (r : res A) : res B :=
+  match r with Ok a => Ok (f a) | Err e => Err e | Fault x => Fault x end.
+
+(* what a decoded debug entry says, without buffer offsets: the bytes of the structures and strings it borrows *)
+Definition bytes_at (g : N -> N) (off n : N) : list N := region_bytes g {| r_off := off; r_len := n |}.
+Definition pgo_vals (g : N -> N) (l : list Dirs.pgo_item) : list (N * N * list N) :=
+  map (fun it => (Dirs.pg_rva it, Dirs.pg_size it, region_bytes g (Dirs.pg_name it))) l.
+Inductive entry_val :=
+| VCv20 (hdr name : list N)                        (* IMAGE_DEBUG_CV_INFO_PDB20 (16 bytes), pdb_file_name incl. NUL *)
+| VCv70 (hdr name : list N)                        (* IMAGE_DEBUG_CV_INFO_PDB70 (24 bytes), pdb_file_name incl. NUL *)
+| VDbg (hdr : list N)                              (* IMAGE_DEBUG_MISC (12 bytes) *)
+| VPgo (image : list N) (items : res (list (N * N * list N)))   (* the dword slice and Pgo::iter() to exhaustion *)
+| VUnknown (data : option (list N)).
+Definition entry_vals (g : N -> N) (e : Dirs.entry) : entry_val :=
+  match e with
+  | Dirs.ECv20 i n => VCv20 (bytes_at g i 16) (region_bytes g n)
+  | Dirs.ECv70 i n => VCv70 (bytes_at g i 24) (region_bytes g n)
+  | Dirs.EDbg i => VDbg (bytes_at g i 12)
+  | Dirs.EPgo r => VPgo (region_bytes g r) (res_map (pgo_vals g) (Dirs.pgo_iter g r))
+  | Dirs.EUnknown d => VUnknown (option_map (region_bytes g) d)
+  end.
+
+(* ---- exports: lookups that swallow read errors.  [names_readable c t]: derva_c_str succeeds on every entry of
+        the name table (decidable).  [res_le r r']: whatever r returns, r' returns the same. ---- *)
+Definition names_readable (c : N -> res (list N)) (t : Exports.tables) : bool :=
+  forallb (fun rva => match c rva with Ok _ => true | _ => false end) (Exports.t_names t).
+Definition res_le {A} (r r' : res A) : Prop := forall x, r = Ok x -> r' = Ok x.
+
+(* the UNWIND_INFO accessors *)
+Definition unwind_vals (g : N -> N) (r : region) : N * N * N * N * N * N * list N :=
+  (Dirs.uw_version g r, Dirs.uw_flags g r, Dirs.uw_size_of_prolog g r, Dirs.uw_count g r,
+   Dirs.uw_frame_register g r, Dirs.uw_frame_offset g r, region_bytes g (Dirs.uw_codes g r)).
+
+(* ---- (a) the converse direction.  [stored_at secs rva ms]: rva lies in a section and ms bytes from it on are
+        STORED (section offset + ms <= SizeOfRawData): exactly the slices a file view can serve. ---- *)
+Definition stored_at (secs : list section) (rva ms : N) : bool :=
+  match first_v secs rva with
+  | Some s => (rva - s_va s <=? s_srd s) && (ms <=? s_srd s - (rva - s_va s))
+  | None => false
+  end.
+
+(* Exports hint_name (import by name with a hint) falls back to the name search when hint(h) or name_of_hint(h) FAILS; it is
+   monotone when both succeed on the file view (decidable); an import by ordinal needs nothing *)
+Definition import_readable (c : N -> res (list N)) (t : Exports.tables) (i : Exports.import) : bool :=
+  match i with
+  | Exports.ByName h _ =>
+    match Exports.hint c t h, Exports.name_of_hint c t h with Ok _, Ok _ => true | _, _ => false end
+  | Exports.ByOrdinal _ => true
+  end.
